@@ -197,6 +197,68 @@ def payloadOf (file : Array Nat) (payloads : List (Nat × List Nat)) (p : PageIn
   | some (_, b) => b
   | none => (file.extract p.dataOff (p.dataOff + p.compSize)).toList
 
+/-- what the pages of one column chunk have yielded so far -/
+structure PageAcc where
+  dict : Option (List Cell) := none
+  defs : List Nat := []
+  reps : List Nat := []
+  vals : List Cell := []
+  count : Nat := 0
+  loose : Nat := 0
+  deriving Repr
+
+/-- decode ONE page (dictionary, data v1, data v2) from its uncompressed body and add it to what the
+    earlier pages of the chunk yielded.  Pure: the theorems of Props/C01 and Props/C02 about whole
+    written chunks are about this very function, which `decodeChunk` runs on the real bytes. -/
+def decodePage (leaf : Leaf) (acc : PageAcc) (p : PageInfo) (body : List Nat) : Except String PageAcc :=
+  if body.length ≠ p.uncompSize then .error s!"page at {p.hdrOff}: uncompressed_page_size {p.uncompSize} but payload has {body.length} bytes" else
+  if p.ptypeTag = 2 then
+    match plainDecode leaf.ptype leaf.typeLength p.numValues body with
+    | some d => .ok { acc with dict := some d }
+    | none => .error s!"dictionary page at {p.hdrOff} does not decode"
+  else if p.ptypeTag = 0 then
+    match levelsV1 leaf.maxRep p.numValues body with
+    | none => .error s!"page at {p.hdrOff}: repetition levels do not decode"
+    | some (rl, r1) =>
+    match levelsV1 leaf.maxDef p.numValues r1 with
+    | none => .error s!"page at {p.hdrOff}: definition levels do not decode"
+    | some (dl, r2) =>
+    let nn := (dl.filter (· == leaf.maxDef)).length
+    match decodeValues leaf.ptype leaf.typeLength p.encoding acc.dict nn r2 with
+    | none => .error s!"page at {p.hdrOff}: values (encoding {p.encoding}) do not decode"
+    | some vs =>
+      .ok { acc with defs := acc.defs ++ dl, reps := acc.reps ++ rl, vals := acc.vals ++ vs, count := acc.count + p.numValues,
+                     loose := acc.loose + levelsLooseV1 leaf.maxRep p.numValues body + levelsLooseV1 leaf.maxDef p.numValues r1
+                       + valuesLoose leaf.ptype p.encoding nn r2 }
+  else
+    let rb := body.take p.repLen
+    let db := (body.drop p.repLen).take p.defLen
+    let vb := body.drop (p.repLen + p.defLen)
+    let rl := if leaf.maxRep = 0 then List.replicate p.numValues 0 else decodeHybrid (widthFor leaf.maxRep) p.numValues rb
+    let dl := if leaf.maxDef = 0 then List.replicate p.numValues 0 else decodeHybrid (widthFor leaf.maxDef) p.numValues db
+    if dl.length ≠ p.numValues ∨ rl.length ≠ p.numValues then .error s!"page at {p.hdrOff}: v2 levels do not decode" else
+    let nn := (dl.filter (· == leaf.maxDef)).length
+    -- a v2 page holds whole records: it starts one, and num_rows counts the records it starts
+    if leaf.maxRep > 0 ∧ p.numValues > 0 ∧ rl.head? ≠ some 0 then .error s!"page at {p.hdrOff}: a v2 page must start at a record boundary" else
+    let nrec := if leaf.maxRep = 0 then p.numValues else (rl.filter (· == 0)).length
+    if p.numRows ≠ some nrec then .error s!"page at {p.hdrOff}: num_rows {p.numRows} but the page starts {nrec} records" else
+    if p.numNulls ≠ some (p.numValues - nn) then .error s!"page at {p.hdrOff}: num_nulls {p.numNulls} but {p.numValues - nn} levels are below the maximum" else
+    match decodeValues leaf.ptype leaf.typeLength p.encoding acc.dict nn vb with
+    | none => .error s!"page at {p.hdrOff}: values (encoding {p.encoding}) do not decode"
+    | some vs =>
+      .ok { acc with defs := acc.defs ++ dl, reps := acc.reps ++ rl, vals := acc.vals ++ vs, count := acc.count + p.numValues,
+                     loose := acc.loose + (if leaf.maxRep = 0 ∨ hybridTight (widthFor leaf.maxRep) p.numValues rb then 0 else 1)
+                       + (if leaf.maxDef = 0 ∨ hybridTight (widthFor leaf.maxDef) p.numValues db then 0 else 1)
+                       + valuesLoose leaf.ptype p.encoding nn vb }
+
+/-- the pages of a chunk in file order -/
+def decodePages (leaf : Leaf) : PageAcc → List (PageInfo × List Nat) → Except String PageAcc
+  | acc, [] => .ok acc
+  | acc, (p, body) :: rest =>
+    match decodePage leaf acc p body with
+    | .error e => .error e
+    | .ok acc' => decodePages leaf acc' rest
+
 def decodeChunk (file : Array Nat) (payloads : List (Nat × List Nat)) (leaf : Leaf) (cm : ChunkMeta) (rgRows : Nat) :
     Except String ChunkData := do
   let start := match cm.dictOff with | some d => min d cm.dataOff | none => cm.dataOff
@@ -208,46 +270,15 @@ def decodeChunk (file : Array Nat) (payloads : List (Nat × List Nat)) (leaf : L
   match pages.find? (·.ptypeTag != 2) with
   | some p => if p.hdrOff ≠ cm.dataOff then throw s!"data_page_offset {cm.dataOff} but the first data page is at {p.hdrOff}"
   | none => pure ()
-  let mut dict : Option (List Cell) := none
-  let mut defs : List Nat := []
-  let mut reps : List Nat := []
-  let mut vals : List Cell := []
-  let mut count := 0
-  let mut loose := 0
-  for p in pages do
-    let body := payloadOf file payloads p
-    if body.length ≠ p.uncompSize then throw s!"page at {p.hdrOff}: uncompressed_page_size {p.uncompSize} but payload has {body.length} bytes"
-    if p.ptypeTag = 2 then
-      if p.hdrOff ≠ (cm.dictOff.getD p.hdrOff) then throw s!"dictionary_page_offset {cm.dictOff} but the dictionary page is at {p.hdrOff}"
-      match plainDecode leaf.ptype leaf.typeLength p.numValues body with
-      | some d => dict := some d
-      | none => throw s!"dictionary page at {p.hdrOff} does not decode"
-    else if p.ptypeTag = 0 then
-      let some (rl, r1) := levelsV1 leaf.maxRep p.numValues body | throw s!"page at {p.hdrOff}: repetition levels do not decode"
-      let some (dl, r2) := levelsV1 leaf.maxDef p.numValues r1 | throw s!"page at {p.hdrOff}: definition levels do not decode"
-      let nn := (dl.filter (· == leaf.maxDef)).length
-      let some vs := decodeValues leaf.ptype leaf.typeLength p.encoding dict nn r2 | throw s!"page at {p.hdrOff}: values (encoding {p.encoding}) do not decode"
-      defs := defs ++ dl; reps := reps ++ rl; vals := vals ++ vs; count := count + p.numValues
-      loose := loose + levelsLooseV1 leaf.maxRep p.numValues body + levelsLooseV1 leaf.maxDef p.numValues r1
-        + valuesLoose leaf.ptype p.encoding nn r2
-    else
-      let rb := body.take p.repLen
-      let db := (body.drop p.repLen).take p.defLen
-      let vb := body.drop (p.repLen + p.defLen)
-      let rl := if leaf.maxRep = 0 then List.replicate p.numValues 0 else decodeHybrid (widthFor leaf.maxRep) p.numValues rb
-      let dl := if leaf.maxDef = 0 then List.replicate p.numValues 0 else decodeHybrid (widthFor leaf.maxDef) p.numValues db
-      if dl.length ≠ p.numValues ∨ rl.length ≠ p.numValues then throw s!"page at {p.hdrOff}: v2 levels do not decode"
-      let nn := (dl.filter (· == leaf.maxDef)).length
-      -- a v2 page holds whole records: it starts one, and num_rows counts the records it starts
-      if leaf.maxRep > 0 ∧ p.numValues > 0 ∧ rl.head? ≠ some 0 then throw s!"page at {p.hdrOff}: a v2 page must start at a record boundary"
-      let nrec := if leaf.maxRep = 0 then p.numValues else (rl.filter (· == 0)).length
-      if p.numRows ≠ some nrec then throw s!"page at {p.hdrOff}: num_rows {p.numRows} but the page starts {nrec} records"
-      if p.numNulls ≠ some (p.numValues - nn) then throw s!"page at {p.hdrOff}: num_nulls {p.numNulls} but {p.numValues - nn} levels are below the maximum"
-      let some vs := decodeValues leaf.ptype leaf.typeLength p.encoding dict nn vb | throw s!"page at {p.hdrOff}: values (encoding {p.encoding}) do not decode"
-      defs := defs ++ dl; reps := reps ++ rl; vals := vals ++ vs; count := count + p.numValues
-      loose := loose + (if leaf.maxRep = 0 ∨ hybridTight (widthFor leaf.maxRep) p.numValues rb then 0 else 1)
-        + (if leaf.maxDef = 0 ∨ hybridTight (widthFor leaf.maxDef) p.numValues db then 0 else 1)
-        + valuesLoose leaf.ptype p.encoding nn vb
+  match pages.find? (fun p => p.ptypeTag == 2 && p.hdrOff != cm.dictOff.getD p.hdrOff) with
+  | some p => throw s!"dictionary_page_offset {cm.dictOff} but the dictionary page is at {p.hdrOff}"
+  | none => pure ()
+  let acc ← decodePages leaf {} (pages.map fun p => (p, payloadOf file payloads p))
+  let defs := acc.defs
+  let reps := acc.reps
+  let vals := acc.vals
+  let count := acc.count
+  let loose := acc.loose
   if count ≠ cm.numValues then throw s!"num_values {cm.numValues} but pages hold {count}"
   if leaf.maxRep = 0 ∧ count ≠ rgRows then throw s!"pages hold {count} values but the row group has {rgRows} rows"
   if leaf.maxRep > 0 ∧ (reps.filter (· == 0)).length ≠ rgRows then throw s!"repetition levels start {(reps.filter (· == 0)).length} records but the row group has {rgRows} rows"
